@@ -36,6 +36,7 @@ func PanicSites(r *core.Run, sc *Scope, bce *BCE, table string) {
 	for _, f := range sc.Funcs {
 		info := f.Pkg.TypesInfo
 		sortIface := isSortMethod(f)
+		checkP4a(r, f, table)
 		f.InspectOwn(func(n ast.Node) bool {
 			switch x := n.(type) {
 			case *ast.CallExpr:
